@@ -13,7 +13,7 @@ from .. import sp
 ID = "C18"
 META = {
     "technique": "runtime monitoring: fingerprint path-diff scope monitor + round-trip monitor (alphabet calibrated per text against pylatexenc called directly) + failpoints injected through encoder=/decoder= on the real LaTeX middlewares",
-    "level_text": "Libraries with str/int/NameParts/list values, @string blocks, comments, preambles and failed blocks are transformed by LatexEncodingMiddleware and LatexDecodingMiddleware under every constructor option and both in-place modes; only str field values, NameParts strings and @string values may change and must stay str. Texts of 1-30 characters (letters, digits, accented letters, punctuation, TeX specials, $..$ spans, URLs) that pylatexenc itself round-trips must round-trip through the middlewares at field, NameParts and @string level. Raising converters (exceptions with and without a message) must yield a MiddlewareErrorBlock retaining the entry, never an exception and never silence. Round-trip and scope libraries also hold @string blocks NAMED like the field texts. An entry whose field keys repeat is encoded and each encoded value is decoded on its own: every field must have been converted. A count family puts k distinct URLs, k equal URLs, k math spans, both interleaved and k accented words into one value, for k on both sides of 10, 100 and 256 (thorough 1000), under all eight encoder option sets.",
+    "level_text": "Libraries with str/int/NameParts/list values, @string blocks, comments, preambles and failed blocks are transformed by LatexEncodingMiddleware and LatexDecodingMiddleware under every constructor option and both in-place modes; only str field values, NameParts strings and @string values may change and must stay str. Texts of 1-30 characters (letters, digits, accented letters, punctuation, TeX specials, $..$ spans, URLs) that pylatexenc itself round-trips must round-trip through the middlewares at field, NameParts and @string level. Raising converters (exceptions with and without a message) must yield a MiddlewareErrorBlock retaining the entry, never an exception and never silence. Round-trip and scope libraries also hold @string blocks NAMED like the field texts. An entry whose field keys repeat is encoded and each encoded value is decoded on its own: every field must have been converted. A count family puts k distinct URLs, k equal URLs, k math spans, both interleaved and k accented words into one value, for k on both sides of 10, 100 and 256 (thorough 1000), under all eight encoder option sets. 6 % of the round-trip text parts are LaTeX-looking plain text (\\[..\\], \\(..\\), \\begin{x}, \\textbf{a}, escaped specials).",
     "level_note": "a text is in the quantifier iff pylatexenc (default encoder/decoder, called directly) round-trips it - this measures the third party's injectivity, not the repository; URLs over letters, digits and : / . _ - # ? = and, in a quarter of the cases, % ~ & (known finding K2: those do not round-trip with enclose_urls on)",
 }
 RULE = ("case = (kind, texts, options): kind in {roundtrip, scope, failpoint}; texts drawn from the calibrated alphabet, math spans and URLs; non-trivial = "
